@@ -693,6 +693,12 @@ class DateTimeFieldFormat(AbstractFieldFormat):
                     sys.exc_info()[1],
                 )
             )
+        if result.tm_sec > 60:
+            # NOTE: time.strptime() accepts 61 for historical reasons, but no minute has a second 61.
+            raise errors.FieldValueError(
+                "date must match format %s but has more than 60 seconds: %s"
+                % (self.human_readable_format, _compat.text_repr(value_to_validate))
+            )
         return result
 
 
